@@ -73,6 +73,14 @@ def const_query(l, stale=None):
 DB_CONST = ["db.q uuid", "db.q version_name", "db.q directory", "db.q verify"]
 
 
+def moved_subtree_probe(mk):
+    """a crate moved together with its sub-tree, then re-parented under its own (moved) grandchild: must be refused;
+    a library that accepts it has a parent cycle (1.x: unbounded update_path recursion, 2.x: the recursive view)"""
+    return ["mkroot zp1 7a7031", "mksub zp2 zp1 7a7032", "mksub zp3 zp2 7a7033", "mkroot zp4 7a7034",
+            "setparent zp2 zp4", "setparent zp4 zp3", "rename zp4 7a7035", "crate.q zp4 descendants",
+            "crate.q zp3 children"]
+
+
 def run_pair(scripts, watchdog=15):
     hres = runner.run_harness(scripts, watchdog=watchdog, stateless=False)
     mres = runner.run_model(scripts)
